@@ -14,10 +14,12 @@ pub struct ProgCfg {
     pub external_inside: bool,
     /// allow non-ASCII / escape-needing characters in strings
     pub wild_strings: bool,
+    /// occasionally reserve a block of more than 21845 words (3 * len overflows u16)
+    pub huge: bool,
 }
 impl Default for ProgCfg {
     fn default() -> Self {
-        ProgCfg { max_blocks: 4, max_stmts: 40, externals: true, big: true, external_inside: true, wild_strings: true }
+        ProgCfg { max_blocks: 4, max_stmts: 40, externals: true, big: true, external_inside: true, wild_strings: true, huge: false }
     }
 }
 
@@ -148,7 +150,7 @@ fn gen_proto(t: &mut Tape, cfg: &ProgCfg) -> Proto {
             _ => t.range(-32768, 65535) as i32,
         }))),
         27 | 28 => Proto::FillLabel,
-        29 | 30 => Proto::Done(MKind::Blkw(if cfg.big && t.chance(1, 8) { 100 + t.pick(600) as i32 } else { 1 + t.pick(20) as i32 })),
+        29 | 30 => Proto::Done(MKind::Blkw(if cfg.huge && t.chance(1, 12) { 21840 + t.pick(12000) as i32 } else if cfg.big && t.chance(1, 8) { 100 + t.pick(600) as i32 } else { 1 + t.pick(20) as i32 })),
         31 | 32 => Proto::Done(MKind::Stringz(gen_string(t, cfg.wild_strings))),
         _ => Proto::Done(MKind::Halt),
     }
